@@ -42,6 +42,8 @@ def check_program(ctx, bt, spec, b, log):
 def run(ctx, bt):
     run_engine_protocol(ctx, bt, ctx.scale(110, 1200), [Monitor(ctx)], FOOT_FIELDS, None, corr_name="step[C02]")
     run_programs(ctx, bt, ctx.scale(90, 1500), check_program)
+    from ..runs_run import run_steps_protocol
+    run_steps_protocol(ctx, bt, ctx.scale(12, 300), FOOT_FIELDS, "run-steps[C02]")
 
 
 def search(ctx, bt):
